@@ -819,3 +819,80 @@ Proof.
   destruct (samples names outputs) as [s|]; [|discriminate]. intros H. inversion H; subst o. simpl.
   repeat split; reflexivity.
 Qed.
+
+(** ------------------------------------------------------------------------------------------
+    9. [quantile] against the definition in use before the order of its checks was aligned with
+       the Python code ([quantile_old]): the same function on every well-formed input            *)
+
+Lemma insert_fst p p' : forall a b, fst p = fst p' -> map fst a = map fst b ->
+  map fst (insert p a) = map fst (insert p' b).
+Proof.
+  induction a as [|u a IH]; intros [|v b] Hp H; simpl in *; try discriminate; [now rewrite Hp|].
+  injection H as Hu H. rewrite Hp, Hu.
+  destruct (qleb (fst p') (fst v)); simpl; [now rewrite Hp, Hu, H|].
+  rewrite Hu. f_equal. now apply IH.
+Qed.
+
+(** the sorted VALUES do not depend on what is attached to them *)
+Lemma isort_fst : forall a b, map fst a = map fst b -> map fst (isort a) = map fst (isort b).
+Proof.
+  induction a as [|u a IH]; intros [|v b] H; simpl in *; try discriminate; [reflexivity|].
+  injection H as Hu H. apply insert_fst; [exact Hu | now apply IH].
+Qed.
+
+Lemma map_fst_combine {A B} : forall (x : list A) (w : list B), length w = length x -> map fst (combine x w) = x.
+Proof.
+  induction x as [|a x IH]; intros [|b w] H; simpl in *; try discriminate; [reflexivity|].
+  f_equal. apply IH. lia.
+Qed.
+
+Lemma hd_error_map {A B} (f : A -> B) (l : list A) : hd_error (map f l) = option_map f (hd_error l).
+Proof. destruct l; reflexivity. Qed.
+
+(** [alpha = 0]: the minimum, whatever the weights (of the right length) *)
+Lemma quantile_zero_min x w : length w = length x ->
+  option_map fst (hd_error (isort (combine x x))) = option_map fst (hd_error (isort (combine x w))).
+Proof.
+  intro H. rewrite <- !hd_error_map. f_equal. apply isort_fst.
+  now rewrite !map_fst_combine.
+Qed.
+
+(** equal lengths and a non-zero weight sum (in particular: a positive one), or no weights at all:
+    [quantile] computes exactly what [quantile_old] computed.  The correspondence predicates
+    [agree] / [ok] evaluate [quantile] on recorded inputs; on every such well-formed input their
+    value is therefore the one obtained with the old definition. *)
+Theorem quantile_unchanged_on_wf (x : list Qc) (alpha : Qc) (w : option (list Qc)) :
+  match w with Some w => length w = length x /\ sumq w <> 0 | None => True end ->
+  quantile x alpha w = quantile_old x alpha w.
+Proof.
+  intro H. unfold quantile, quantile_old.
+  set (w' := match w with None => repeat 1 (length x) | Some w => w end).
+  assert (Hl : length w' = length x) by (subst w'; destruct w as [w|]; [apply H | apply repeat_length]).
+  rewrite Hl, Nat.eqb_refl. cbn [negb]. cbv iota.
+  destruct (qeqb alpha 0); [now apply quantile_zero_min|].
+  destruct (qeqb (sumq w') 0) eqn:Ez; [|reflexivity].
+  unfold qeqb, Qc_eq_bool in Ez. destruct (Qc_eq_dec (sumq w') 0) as [E|]; [|discriminate]. clear Ez.
+  destruct w as [w|]; subst w'; [now destruct H|].
+  rewrite sumq_ones in E. destruct x as [|a x]; [reflexivity|].
+  exfalso. revert E. apply qn_nonzero. discriminate.
+Qed.
+
+(** ... and [quantile_old] differed from [quantile] exactly as described in Num/Results.v *)
+Theorem quantile_changed_only_off_wf (x : list Qc) (alpha : Qc) (w : list Qc) :
+  quantile x alpha (Some w) <> quantile_old x alpha (Some w) ->
+  (alpha = 0 /\ length w <> length x) \/ (alpha <> 0 /\ length w = length x /\ sumq w = 0 /\ length x <> 1%nat).
+Proof.
+  intro H. destruct (Nat.eq_dec (length w) (length x)) as [El|El].
+  - destruct (Qc_eq_dec (sumq w) 0) as [Ez|Ez].
+    + right. destruct (Qc_eq_dec alpha 0) as [Ea|Ea].
+      * exfalso. apply H. subst alpha. unfold quantile, quantile_old.
+        rewrite El, Nat.eqb_refl. cbn. now apply quantile_zero_min.
+      * repeat split; auto. intro E1. apply H. unfold quantile, quantile_old.
+        rewrite El, Nat.eqb_refl, E1. cbn [negb Nat.eqb andb]. rewrite andb_false_r.
+        unfold qeqb at 1 2, Qc_eq_bool. destruct (Qc_eq_dec alpha 0); [contradiction|reflexivity].
+    + exfalso. apply H. now apply (quantile_unchanged_on_wf x alpha (Some w)).
+  - left. split; [|exact El]. destruct (Qc_eq_dec alpha 0) as [Ea|Ea]; [exact Ea|].
+    exfalso. apply H. unfold quantile, quantile_old.
+    apply Nat.eqb_neq in El. rewrite El.
+    unfold qeqb, Qc_eq_bool. destruct (Qc_eq_dec alpha 0); [contradiction|reflexivity].
+Qed.
